@@ -153,7 +153,7 @@ fn spec_inject(stored: &BTreeMap<String, String>, line: &str, le: &str) -> (Stri
 
 // ---------------------------------------------------------------- corpus
 fn tokens_directive() -> Vec<&'static str> {
-    vec![" ", "\t", "-", "//", "TXTPP#", "TXTPP", "#", "run", "include", "tag", "temp", "write", "after", "runx", "x", "\u{3000}", "é"]
+    vec![" ", "\t", "-", "//", "TXTPP#", "TXTPP", "#", "run", "include", "tag", "temp", "write", "after", "runx", "Run", "x", "\u{3000}", "é"]
 }
 
 fn strings_up_to(alpha: &[&str], n: usize) -> Vec<String> {
@@ -244,7 +244,7 @@ pub(crate) fn deep() -> bool {
 
 fn mode_detect(rep: &mut Report) {
     let n = if deep() { 5 } else { 4 };
-    rep.bound = format!("all concatenations of <= {n} tokens over {{space, tab, -, //, TXTPP#, TXTPP, #, run, include, tag, temp, write, after, runx, x, U+3000, e-acute}}");
+    rep.bound = format!("all concatenations of <= {n} tokens over {{space, tab, -, //, TXTPP#, TXTPP, #, run, include, tag, temp, write, after, runx, Run, x, U+3000, e-acute}}");
     for s in strings_up_to(&tokens_directive(), n) {
         check_detect_one(rep, &s);
     }
